@@ -521,3 +521,111 @@ func reflectTagGet(tag, key string) string {
 	}
 	return ""
 }
+
+// checkLocked: static lock discipline (C08). Interleavings themselves are outside the verifier; what is checked is the
+// classical sufficient condition that the guarded calls run under the per-connection mutex.
+func (e *Engine) checkLocked(prop string) (checked int, violations []string) {
+	for _, lr := range e.specs.Locked {
+		if lr.Prop != prop {
+			continue
+		}
+		fn := e.byName[lr.Func]
+		if fn == nil {
+			checked++
+			violations = append(violations, fmt.Sprintf("function %s not found (rule at %s)", lr.Func, lr.Where))
+			continue
+		}
+		isMutexOp := func(ins ssa.Instruction, name string) bool {
+			c, ok := ins.(ssa.CallInstruction)
+			if !ok {
+				return false
+			}
+			cc := c.Common()
+			sc := cc.StaticCallee()
+			if sc == nil || sc.String() != "(*sync.Mutex)."+name || len(cc.Args) == 0 {
+				return false
+			}
+			fa, ok := cc.Args[0].(*ssa.FieldAddr)
+			if !ok {
+				return false
+			}
+			st := fa.X.Type().Underlying().(*types.Pointer).Elem().Underlying().(*types.Struct)
+			return st.Field(fa.Field).Name() == lr.Field && fa.X == ssa.Value(fn.Params[0])
+		}
+		type site struct {
+			b   *ssa.BasicBlock
+			idx int
+		}
+		var locks, unlocks []site
+		deferredUnlock := false
+		for _, b := range fn.Blocks {
+			for i, ins := range b.Instrs {
+				if isMutexOp(ins, "Lock") {
+					if _, isDefer := ins.(*ssa.Defer); !isDefer {
+						locks = append(locks, site{b, i})
+					}
+				}
+				if isMutexOp(ins, "Unlock") {
+					if _, isDefer := ins.(*ssa.Defer); isDefer {
+						deferredUnlock = true
+					} else {
+						unlocks = append(unlocks, site{b, i})
+					}
+				}
+			}
+		}
+		before := func(a, b site) bool { // a executes before b on every path to b
+			if a.b == b.b {
+				return a.idx < b.idx
+			}
+			return a.b.Dominates(b.b)
+		}
+		for _, want := range lr.Calls {
+			found := false
+			for _, b := range fn.Blocks {
+				for i, ins := range b.Instrs {
+					c, ok := ins.(ssa.CallInstruction)
+					if !ok {
+						continue
+					}
+					if _, isDefer := ins.(*ssa.Defer); isDefer {
+						continue
+					}
+					cc := c.Common()
+					name := ""
+					if cc.IsInvoke() {
+						name = types.TypeString(cc.Value.Type(), nil) + "." + cc.Method.Name()
+					} else if sc := cc.StaticCallee(); sc != nil {
+						name = sc.String()
+					}
+					if name != want && !strings.HasSuffix(name, "."+want) {
+						continue
+					}
+					found = true
+					checked++
+					here := site{b, i}
+					ok2 := false
+					for _, l := range locks {
+						if before(l, here) {
+							ok2 = true
+						}
+					}
+					for _, u := range unlocks {
+						if !before(here, u) {
+							ok2 = false
+						}
+					}
+					_ = deferredUnlock
+					if !ok2 {
+						violations = append(violations, fmt.Sprintf("%s: call to %s at %s is not covered by %s.Lock()", lr.Func, want, e.fset.Position(ins.Pos()), lr.Field))
+					}
+				}
+			}
+			if !found {
+				checked++
+				violations = append(violations, fmt.Sprintf("%s: no call to %s found (rule at %s no longer fits the code)", lr.Func, want, lr.Where))
+			}
+		}
+	}
+	return
+}
